@@ -17,7 +17,7 @@
 (* uses only facts that hold under these rules, so it cannot fail on an    *)
 (* execution in which the property holds.                                  *)
 (***************************************************************************)
-EXTENDS Integers, Sequences, FiniteSets, TLC, Json, IOUtils
+EXTENDS Integers, Sequences, FiniteSets, TLC, Json, IOUtils, Lifecycle
 
 Trace == ndJsonDeserialize(IOEnv.TRACE)
 
@@ -49,16 +49,18 @@ VARIABLES
   rrPrev,   \* the cursor before the latest dequeue
   rr,       \* round-robin cursor reconstructed from the dequeues (1-based index of next queue)
   crashed, raced,
+  ref,      \* state of the reference lifecycle machine ("unknown" once control calls have overlapped)
+  started,  \* the worker has been started at least once (its context listener exists)
   overlap,  \* two state-changing control calls have been in progress at the same time (their combined effect is unspecified)
   pcancel,  \* the user's context has been cancelled (the listener may stop the worker at any later moment)
   ad        \* adapter bookkeeping
 
 vars == <<l, hdr, E, sub, addCall, addRet, enters, exits, enterAt, exitAt, deqd, closeStarted, closeNil, mp,
           waitRet, lastRes, rank, pend, R, ctlPending, ws, epoch, pauseStarts, concNow, concMax, concSince,
-          qclosed, lastExitAt, lastDeqAt, rr, rrPrev, crashed, raced, overlap, pcancel, ad>>
+          qclosed, lastExitAt, lastDeqAt, rr, rrPrev, crashed, raced, overlap, pcancel, ref, started, ad>>
 
 NoCall == [op |-> "none", job |-> 0, qi |-> 0, b |-> 0, n |-> 0, at |-> 0, snap |-> {}, clean |-> FALSE, entered |-> {},
-           solo |-> FALSE, rankFloor |-> -1, closedBefore |-> FALSE, qclosedBefore |-> FALSE, waitedBefore |-> FALSE]
+           solo |-> FALSE, ref |-> "unknown", same |-> FALSE, rankFloor |-> -1, closedBefore |-> FALSE, qclosedBefore |-> FALSE, waitedBefore |-> FALSE]
 NoHdr == [ev |-> "reset", ep |-> "", mode |-> "gated", wk |-> "plain", conc |-> 1, ncpu |-> 1, queues |-> <<>>, jobs |-> <<>>,
           batches |-> <<>>, clients |-> <<>>, expiry |-> 0, ratio |-> 0, ctx |-> FALSE, strategy |-> "rr",
           idgen |-> FALSE, nobind |-> FALSE, family |-> ""]
@@ -113,7 +115,7 @@ Blank(h) ==
   /\ concSince' = [j \in DOMAIN sub' |-> 0]
   /\ qclosed' = [q \in DOMAIN h.queues |-> "open"]
   /\ lastExitAt' = 0 /\ lastDeqAt' = 0 /\ rr' = 1 /\ rrPrev' = 1
-  /\ crashed' = FALSE /\ raced' = FALSE /\ pcancel' = FALSE /\ overlap' = FALSE
+  /\ crashed' = FALSE /\ raced' = FALSE /\ pcancel' = FALSE /\ overlap' = FALSE /\ ref' = (IF h.nobind THEN "initiated" ELSE "running") /\ started' = ~h.nobind
   /\ ad' = [pending |-> <<>>, unacked |-> {}, acked |-> {}, issued |-> {}, badack |-> 0, earlyack |-> 0, enq |-> {}]
 
 Init ==
@@ -122,7 +124,7 @@ Init ==
   /\ deqd = <<>> /\ closeStarted = <<>> /\ closeNil = <<>> /\ mp = <<>> /\ waitRet = <<>> /\ lastRes = <<>> /\ rank = <<>>
   /\ pend = <<>> /\ R = NoCall /\ ctlPending = 0 /\ ws = "initiated" /\ epoch = "open" /\ pauseStarts = 0
   /\ concNow = {1} /\ concMax = 1 /\ concSince = <<>> /\ qclosed = <<>> /\ lastExitAt = 0 /\ lastDeqAt = 0 /\ rr = 1 /\ rrPrev = 1
-  /\ crashed = FALSE /\ raced = FALSE /\ pcancel = FALSE /\ overlap = FALSE
+  /\ crashed = FALSE /\ raced = FALSE /\ pcancel = FALSE /\ overlap = FALSE /\ ref = "initiated" /\ started = FALSE
   /\ ad = [pending |-> <<>>, unacked |-> {}, acked |-> {}, issued |-> {}, badack |-> 0, earlyack |-> 0, enq |-> {}]
 
 -----------------------------------------------------------------------------
@@ -130,13 +132,13 @@ Init ==
 
 U(v) == UNCHANGED v
 jobVars == <<sub, addCall, addRet, enters, exits, enterAt, exitAt, deqd, closeStarted, closeNil, mp, waitRet, lastRes, rank, concSince>>
-ctlVars == <<pend, R, ctlPending, ws, epoch, pauseStarts, concNow, concMax, qclosed, pcancel, overlap>>
+ctlVars == <<pend, R, ctlPending, ws, epoch, pauseStarts, concNow, concMax, qclosed, pcancel, overlap, ref, started>>
 miscVars == <<lastExitAt, lastDeqAt, rr, rrPrev, crashed, raced, ad>>
 
 \* jobs submitted by a call: Add -> {job}; AddAll -> items
 SubmitSet(op, job, items) == IF op = "Add" THEN {job} ELSE IF op = "AddAll" THEN Range(items) ELSE {}
 StateChanging == {"Pause", "PauseAndWait", "Stop", "WaitAndStop", "Restart", "CancelCtx", "Resume"}
-Unclean(pc) == IF pc.op = "none" THEN pc ELSE [pc EXCEPT !.clean = FALSE, !.solo = FALSE]
+Unclean(pc) == IF pc.op = "none" THEN pc ELSE [pc EXCEPT !.clean = FALSE, !.solo = FALSE, !.ref = "unknown"]
 
 OnCall(e) ==
   LET js == SubmitSet(e.op, e.job, e.items) \cap Jobs
@@ -145,6 +147,8 @@ OnCall(e) ==
              snap |-> {j \in Jobs : sub[j] = "acc"},
              clean |-> (ws = "running" /\ ctlPending = 0 /\ e.op \notin StateChanging),
              solo |-> (ctlPending = 0),
+             ref |-> IF overlap \/ pcancel THEN "unknown" ELSE ref,
+             same |-> (e.op = "TunePool" /\ concNow = {NormConc(e.n)}),
              entered |-> {j \in Jobs : enters[j] > exits[j]},
              rankFloor |-> IF e.job \in Jobs THEN rank[e.job] ELSE -1,
              closedBefore |-> IF e.job \in Jobs THEN closeNil[e.job] \/ waitRet[e.job] ELSE FALSE,
@@ -174,6 +178,7 @@ OnCall(e) ==
   /\ pauseStarts' = IF e.op \in {"Resume", "Restart"} THEN 0 ELSE pauseStarts
   /\ qclosed' = [q \in Queues |-> IF e.op = "QClose" /\ e.qi = q /\ qclosed[q] = "open" THEN "closing" ELSE qclosed[q]]
   /\ pcancel' = (pcancel \/ (e.op = "CancelCtx" /\ hdr.ctx))
+  /\ U(<<ref, started>>)
   /\ overlap' = (overlap \/ (e.op \in StateChanging /\ \E c \in Clients : pend[c].op \in StateChanging))
   /\ U(<<addRet, enters, exits, enterAt, exitAt, deqd, closeNil, waitRet, lastRes, rank>>)
   /\ U(miscVars)
@@ -215,6 +220,8 @@ OnRet(e) ==
                    (IF \A c \in Clients : c = e.p \/ pend[c].op # "TunePool" THEN {e.conc} ELSE concNow \cup {e.conc})
                 ELSE concNow
   /\ qclosed' = [q \in Queues |-> IF pc.op = "QClose" /\ pc.qi = q THEN "closed" ELSE qclosed[q]]
+  /\ ref' = IF pc.op \in ControlOps /\ pc.op # "CancelCtx" THEN (IF pc.ref = "unknown" THEN "unknown" ELSE RefNext(pc.ref, pc.op)) ELSE ref
+  /\ started' = (started \/ (pc.op \in {"Bind", "Restart"}) \/ (pc.op = "Resume" /\ e.res = "nil"))
   /\ U(<<addCall, enters, exits, enterAt, exitAt, deqd, closeStarted, mp, concSince, concMax, pcancel, overlap>>)
   /\ U(miscVars)
 
@@ -225,7 +232,7 @@ OnEnter(e) ==
        ELSE U(<<enters, enterAt>>)
   /\ pauseStarts' = IF epoch = "pause" THEN pauseStarts + 1 ELSE pauseStarts
   /\ U(<<sub, addCall, addRet, exits, exitAt, deqd, closeStarted, closeNil, mp, waitRet, lastRes, rank, concSince>>)
-  /\ U(<<pend, R, ctlPending, ws, epoch, concNow, concMax, qclosed, pcancel, overlap>>)
+  /\ U(<<pend, R, ctlPending, ws, epoch, concNow, concMax, qclosed, pcancel, overlap, ref, started>>)
   /\ U(miscVars)
 
 OnExit(e) ==
@@ -406,6 +413,17 @@ C11_AckIssued == ad.badack = 0
 C11_AckAfter == ad.earlyack = 0
 \* every accepted entry is processed completely (acked after exit), or pending, or delivered-unacked
 C11_NoLoss == \A s \in ad.enq : (\E i \in DOMAIN ad.pending : ad.pending[i] = s) \/ (\E u \in ad.unacked \cup ad.acked : u[2] = s)
+
+---- \* C14 lifecycle machine
+IsCtlRet == E.ev = "ret" /\ (E.op \in ControlOps \/ E.op = "TunePool") /\ E.op # "CancelCtx"
+C14_Result == IsCtlRet /\ R.ref # "unknown" => E.res = RefRes(R.ref, E.op, R.same)
+C14_Status == IsCtlRet /\ R.ref # "unknown" => E.wss = StatusName(RefNext(R.ref, E.op))
+\* the worker never reports Running while unable to process jobs: at rest nothing accepted is left over
+C14_RunningMeansProcessing == Quiescent /\ ref = "running" /\ E.wss = "Running" /\ NoUnknown => E.pending = 0 /\ \A j \in Jobs : Accepted(j) /\ ~Excused(j) => exits[j] = 1
+C14_RestAgrees == Quiescent /\ ref # "unknown" /\ ~pcancel => E.wss = StatusName(ref)
+\* cancelling the configured context stops a started worker
+C14_CtxStops == Quiescent /\ pcancel /\ started /\ ~overlap /\ E.blocked = <<>> => E.wss = "Stopped"
+C14_OneLoop == Quiescent /\ ~overlap /\ E.wss = "Running" => E.cloop = 1
 
 ---- \* C15 strategy (gated traces, when the contents of every queue are known for sure)
 Certain == \A j \in Jobs : sub[j] \notin {"calling", "unk"} /\ ~mp[j]
